@@ -561,6 +561,7 @@ func streamLimit(c *Ctx) {
 		}
 	}
 	unaryLengthProbes(c)
+	unaryEncodedBulkProbes(c)
 	// random mixes
 	nRand := 400
 	if c.Thorough() {
@@ -633,6 +634,60 @@ func unaryLengthProbes(c *Ctx) {
 			}
 			if alloc > uint64(8*n+(2<<20)) {
 				c.Fail("limit-lying-prefix-buffered", desc, fmt.Sprintf("allocated %d bytes", alloc), "receiver allocated for the declared length although it exceeds the read limit")
+			}
+		}
+	}
+}
+
+// unaryEncodedBulkProbes: the same for a unary Connect body that names a Content-Encoding: the
+// limit bounds what is buffered from the wire whether or not the body claims to be compressed
+// (the bytes need not even be valid for the algorithm). Handler and client side.
+func unaryEncodedBulkProbes(c *Ctx) {
+	const wire = 16 << 20
+	for _, n := range []int{1024, 65536} {
+		for _, side := range []string{"handler", "client"} {
+			for _, enc := range []string{"gzip", "rle"} {
+				desc := fmt.Sprintf("unary Connect %s, Content-Encoding %s, %d bytes on the wire, max=%d", side, enc, wire, n)
+				var alloc uint64
+				got := safely(func() string {
+					bulk := bytes.Repeat([]byte{7}, wire)
+					runtime.GC()
+					var before, after runtime.MemStats
+					var out string
+					if side == "handler" {
+						h := connect.NewUnaryHandler("/s/m", func(ctx context.Context, r *connect.Request[[]byte]) (*connect.Response[[]byte], error) {
+							return connect.NewResponse(&[]byte{1}), nil
+						}, connect.WithCodec(rawCodec{"raw"}), connect.WithReadMaxBytes(n), connect.WithCompression("rle", newRLEDecompressor, newRLECompressor))
+						req := httptest.NewRequest(http.MethodPost, "/s/m", &scriptReader{chunks: [][]byte{bulk}, tail: io.EOF})
+						req.ProtoMajor, req.ProtoMinor, req.Proto = 2, 0, "HTTP/2.0"
+						req.Header.Set("Content-Type", "application/raw")
+						req.Header.Set("Content-Encoding", enc)
+						req.ContentLength = -1
+						rec := httptest.NewRecorder()
+						runtime.ReadMemStats(&before)
+						h.ServeHTTP(rec, req)
+						runtime.ReadMemStats(&after)
+						out = fmt.Sprintf("status=%d", rec.Code)
+					} else {
+						bc := &bodyClient{status: 200, header: http.Header{"Content-Type": {"application/raw"}, "Content-Encoding": {enc}},
+							body: io.NopCloser(&scriptReader{chunks: [][]byte{bulk}, tail: io.EOF})}
+						cl := connect.NewClient[[]byte, []byte](bc, "http://h/s/m", connect.WithCodec(rawCodec{"raw"}), connect.WithReadMaxBytes(n),
+							connect.WithAcceptCompression("rle", newRLEDecompressor, newRLECompressor))
+						runtime.ReadMemStats(&before)
+						_, err := cl.CallUnary(context.Background(), connect.NewRequest(&[]byte{1}))
+						runtime.ReadMemStats(&after)
+						out = "code=" + codeOrOK(err)
+					}
+					alloc = after.TotalAlloc - before.TotalAlloc
+					return out
+				})
+				c.Count("unary-encoded-bulk-probe")
+				if got != "status=400" && got != "code=invalid_argument" {
+					c.Fail("limit-within-rejected", desc, got, "an over-limit unary body must be rejected as invalid_argument")
+				}
+				if alloc > uint64(8*n+(2<<20)) {
+					c.Fail("limit-encoded-bulk-buffered", desc, fmt.Sprintf("allocated %d bytes", alloc), "receiver buffered far more than its read limit from the wire because the body names a Content-Encoding")
+				}
 			}
 		}
 	}
